@@ -39,6 +39,8 @@ type printObs struct {
 	g, depth, nodes, plen, first, second *sym.Term
 }
 
+type insertObs struct{ g, ply, m, lastMade *sym.Term }
+
 type absSearch struct {
 	w       *run.World
 	boardT  types.Type
@@ -51,6 +53,8 @@ type absSearch struct {
 	searchPtr *vexec.PtrV
 	writePV   bool // the recursion contract also rewrites PV row 0 and advances the node counter
 	prints    []printObs
+	lastMade  *sym.Term // the move of the most recent MakeMove (64 bit), engine-side observation
+	inserts   []insertObs
 	pvStub    vexec.Intrinsic
 }
 
@@ -95,6 +99,10 @@ func (a *absSearch) install(x *vexec.Exec, stubRecursion bool, realTop bool, obs
 		b := v[0].(*vexec.PtrV)
 		p := a.pos(x, b)
 		a.setPos(x, b, c.App("mk", 64, p, m64(v[1])), g)
+		if a.lastMade == nil {
+			a.lastMade = c.Const(64, 0)
+		}
+		a.lastMade = c.Ite(g, m64(v[1]), a.lastMade)
 		return c.App("tok", 64, p, m64(v[1]))
 	})
 	x.Stub(B+"UndoMove", func(x *vexec.Exec, v []vexec.Val, g *sym.Term) vexec.Val {
@@ -233,6 +241,11 @@ func (a *absSearch) install(x *vexec.Exec, stubRecursion bool, realTop bool, obs
 		real := a.w.Prog.MethodValue(sel)
 		x.Stub(real.String(), func(x *vexec.Exec, v []vexec.Val, g *sym.Term) vexec.Val {
 			observe("pv.insert", g, aborted(x))
+			lm := a.lastMade
+			if lm == nil {
+				lm = c.Const(64, 0)
+			}
+			a.inserts = append(a.inserts, insertObs{g: g, ply: c.SExt(v[1].(*sym.Term), 64), m: m64(v[2]), lastMade: lm})
 			delete(x.Intrinsics, real.String())
 			r := x.Call(real, v, nil, g)
 			a.reinstallPV(x, real.String())
@@ -249,6 +262,27 @@ func (a *absSearch) install(x *vexec.Exec, stubRecursion bool, realTop bool, obs
 	})
 }
 
+// observeInserts installs the harness-side accessors over the pv.insert calls recorded by install.
+func (a *absSearch) observeInserts(x *vexec.Exec) {
+	c := x.C
+	S := run.ModPath + "/search."
+	x.Stub(S+"vpInsertedAny", func(x *vexec.Exec, v []vexec.Val, g *sym.Term) vexec.Val {
+		r := c.False
+		for _, i := range a.inserts {
+			r = c.Or(r, i.g)
+		}
+		return r
+	})
+	x.Stub(S+"vpInsertsWellFormed", func(x *vexec.Exec, v []vexec.Val, g *sym.Term) vexec.Val {
+		ply := c.SExt(v[0].(*sym.Term), 64)
+		ok := c.True
+		for _, i := range a.inserts {
+			ok = c.And(ok, c.Or(c.Not(i.g), c.And(c.Eq(i.ply, ply), c.Eq(i.m, i.lastMade))))
+		}
+		return ok
+	})
+}
+
 func (a *absSearch) reinstallPV(x *vexec.Exec, name string) { x.Intrinsics[name] = a.pvStub }
 
 // rewritePV: the contract of a root alphaBeta call as seen by iterativeDeepen: row 0 of the PV buffer holds an
@@ -261,7 +295,9 @@ func (a *absSearch) rewritePV(x *vexec.Exec, s, opts *vexec.PtrV, g *sym.Term) {
 	l := c.ZExt(a.fresh(x, 2, "pv_len"), 8) // 0..3 moves is enough to tell first/second/none apart
 	x.Store(x.ExtendIndex(x.ExtendField(pvPtr, depthIx), 0), l, g)
 	for k := 0; k < 3; k++ {
-		x.Store(x.ExtendIndex(x.ExtendField(pvPtr, movesIx), k), a.fresh(x, 16, "pv_move"), g)
+		mvk := a.fresh(x, 16, "pv_move")
+		x.Assume(c.Or(c.Not(g), c.Not(c.Eq(mvk, c.Const(16, 0))))) // a line consists of moves; the null move is not one
+		x.Store(x.ExtendIndex(x.ExtendField(pvPtr, movesIx), k), mvk, g)
 	}
 	oT := a.w.Pkgs[run.ModPath+"/search"].Type("Options").Type()
 	cT := a.w.Pkgs[run.ModPath+"/search"].Type("Counters").Type()
@@ -294,10 +330,14 @@ func (a *absSearch) observePrints(x *vexec.Exec) {
 		return &vexec.TupleV{E: []vexec.Val{c.Const(64, 0), &vexec.IfaceV{IsNil: c.True}}}
 	})
 	S := run.ModPath + "/search."
-	last := func(sel func(p printObs) *sym.Term, zero *sym.Term) *sym.Term {
+	last := func(sel func(p printObs) *sym.Term, zero *sym.Term, nonEmpty bool) *sym.Term {
 		r := zero
 		for _, p := range a.prints { // later prints override earlier ones
-			r = c.Ite(p.g, sel(p), r)
+			g := p.g
+			if nonEmpty {
+				g = c.And(g, c.Not(c.Eq(p.plen, c.Const(8, 0))))
+			}
+			r = c.Ite(g, sel(p), r)
 		}
 		return r
 	}
@@ -308,14 +348,24 @@ func (a *absSearch) observePrints(x *vexec.Exec) {
 		}
 		return r
 	})
-	x.Stub(S+"vpLastPrintedLen", func(x *vexec.Exec, v []vexec.Val, g *sym.Term) vexec.Val {
-		return c.SExt(last(func(p printObs) *sym.Term { return p.plen }, c.Const(8, 0)), 64)
+	x.Stub(S+"vpLineAny", func(x *vexec.Exec, v []vexec.Val, g *sym.Term) vexec.Val {
+		r := c.False
+		for _, p := range a.prints {
+			r = c.Or(r, c.And(p.g, c.Not(c.Eq(p.plen, c.Const(8, 0)))))
+		}
+		return r
 	})
-	x.Stub(S+"vpLastPrintedFirst", func(x *vexec.Exec, v []vexec.Val, g *sym.Term) vexec.Val {
-		return last(func(p printObs) *sym.Term { return p.first }, c.Const(16, 0))
+	x.Stub(S+"vpLastPrintedDepth", func(x *vexec.Exec, v []vexec.Val, g *sym.Term) vexec.Val {
+		return last(func(p printObs) *sym.Term { return p.depth }, c.Const(64, 0), false)
 	})
-	x.Stub(S+"vpLastPrintedSecond", func(x *vexec.Exec, v []vexec.Val, g *sym.Term) vexec.Val {
-		return last(func(p printObs) *sym.Term { return p.second }, c.Const(16, 0))
+	x.Stub(S+"vpLineLen", func(x *vexec.Exec, v []vexec.Val, g *sym.Term) vexec.Val {
+		return c.SExt(last(func(p printObs) *sym.Term { return p.plen }, c.Const(8, 0), true), 64)
+	})
+	x.Stub(S+"vpLineFirst", func(x *vexec.Exec, v []vexec.Val, g *sym.Term) vexec.Val {
+		return last(func(p printObs) *sym.Term { return p.first }, c.Const(16, 0), true)
+	})
+	x.Stub(S+"vpLineSecond", func(x *vexec.Exec, v []vexec.Val, g *sym.Term) vexec.Val {
+		return last(func(p printObs) *sym.Term { return p.second }, c.Const(16, 0), true)
 	})
 	x.Stub(S+"vpPrintsMonotone", func(x *vexec.Exec, v []vexec.Val, g *sym.Term) vexec.Val {
 		ok := c.True
